@@ -75,6 +75,27 @@ CHECKS = {
              'flag-independent delivery paths, and counted close for every Clone handle (fetch_sub(1) == 1 on the '
              'counter its Clone increments). Reported D3 (fixed).',
         note='Relative to atomics doing what fetch_add/fetch_sub say.', ref='5-C11'),
+    'C08': dict(
+        technique='drop-site analysis on drop-elaborated MIR paths (dyn calls fanned out), result-use and '
+                  'who-may-call rules, zero-count scan with positive control',
+        text='In safe Rust a non-Clone generic value can only be moved or dropped: every non-cleanup Drop of a type '
+             'that owns a payload by value, on every MIR path of every function of the channel modules, drops a '
+             'provably empty slot or is one of four listed sinks; taken values flow only into buffer.push or the '
+             'return value; clear() only from the last receiver; no raw read/write/forget on payloads; cancel '
+             'unlinks before taking the value back.',
+        note='That a parked value is eventually received is C10; ring-buffer accounting is C19.', ref='5-C08'),
+    'C09': dict(
+        technique='path-sensitive guard / must-follow analysis over MIR (capacity guard, refill, queue ends)',
+        text='Structure of the bounded FIFO: push only under can_push or after pop; a freed slot is refilled from '
+             'the oldest parked sender inside the same critical section; add_front/tail-only queue access; success '
+             'only after transfer; direct hand-over only with an empty buffer.',
+        note='Order over whole interleavings and the buffers\' own FIFO (C19) are not decided here.', ref='5-C09'),
+    'C10': dict(
+        technique='path-sensitive must-follow / result-use analysis over MIR',
+        text='Every path that makes a value available hands over to the oldest parked receiver; a dropped notified '
+             'receiver forwards; taking a sender\'s value returns its waker; close wakes all; every returned waker '
+             'reaches Waker::wake in each wrapper; Pending stores the current waker.',
+        note='Deadlock freedom under every schedule is not decided.', ref='5-C10'),
 }
 
 
